@@ -1,4 +1,4 @@
-(** Layer R proofs: C05 (a Ret handler is invoked exactly once: Some on ret, None on drop).
+(** Layer R proofs: C05, the core monitor A (a Ret handler is invoked exactly once: Some on ret, None on drop).
 
     Architecture: the C05 monitor is the product of three monitors (LinC05Mon.v).  For the core monitor A the
     invariant [IA] relates the monitor state on the trace so far to the configuration through the census of
